@@ -7,7 +7,7 @@ use proc_macro2::{Ident, TokenStream};
 use quote::{format_ident, quote};
 
 use super::common::{
-    generate_derives, generate_enum_type, generate_field_type, generate_rule_parse_function,
+    check_ident, generate_derives, generate_enum_type, generate_field_type, generate_rule_parse_function,
     safe_ident, Arity, Codegen, CodegenRule, CodegenSettings, FieldDescriptor, PublicType,
     RecordPosition,
 };
@@ -19,6 +19,7 @@ impl CodegenRule for Rule {
         grammar: &Grammar,
         settings: &CodegenSettings,
     ) -> Result<(TokenStream, TokenStream)> {
+        check_ident(&self.name)?;
         let flags = self.flags();
         let settings = CodegenSettings {
             skip_whitespace: settings.skip_whitespace && !flags.no_skip_ws,
@@ -314,6 +315,9 @@ impl Rule {
                 None
             }
         });
+        for part in check_name_parts.clone().flatten() {
+            check_ident(part)?;
+        }
         let check_idents = check_name_parts.clone().map(|ps| {
             let part_idents = ps.iter().map(safe_ident);
             quote!(#(#part_idents)::*)
